@@ -36,8 +36,8 @@ claim("C02",
       "Coq proof (nested induction over trees, permutation reasoning, fold invariants) + extracted-model lockstep correspondence + manifest-vs-tree oracle",
       "DESIGN.md 3 C02")
 claim("C07",
-      "Theorems (all trees, formats, matchers, primitives Hb): the recorded / recomputed directory hash equals the compositional definition vhash evaluated on the tree pruned of ignored entries; the digest list is sorted before hashing, so any enumeration order of a folder gives the same hashes (hash_of_hash_list and dirhash are permutation invariant); an empty directory hashes as the empty input; the content hash is invariant under renaming files and folders at any depth. Tied to the code by lockstep comparison of every <directoryhash>/<roothash> and of verify -dh -co output with the extracted model (whose Hb queries are answered by hashlib/xxhash) and by an independent recomputation.",
-      "PARTIAL: sensitivity (hash changes when content / a name changes) is a collision statement about the primitive and is only exercised by metamorphic runs. Decoding of digest texts is total only for well-formed digests (C01).",
+      "Theorems (all trees, formats, matchers, primitives Hb): the recorded / recomputed directory hash equals the compositional definition vhash evaluated on the tree pruned of ignored entries; the digest list is sorted before hashing, so any enumeration order of a folder gives the same hashes (hash_of_hash_list and dirhash are permutation invariant); an empty directory hashes as the empty input; the content hash is invariant under renaming files and folders at any depth; SENSITIVITY as a reduction (collision freedom is never assumed): equal hashes of two digest lists mean the lists are permutations of each other or an explicit collision of the primitive exists, and changing the content of one file at any depth changes the content hash of every enclosing folder or exhibits such a collision (premise: the primitive returns digests of the format's width; satisfiable, shown for a toy primitive). Tied to the code by lockstep comparison of every <directoryhash>/<roothash> and of verify -dh -co output with the extracted model (whose Hb queries are answered by hashlib/xxhash) and by an independent recomputation.",
+      "PARTIAL: that the STRUCTURE hash binds names (rename => structure hash changes, needs injectivity of the UTF-8 encoder) is only exercised by the metamorphic runs. Decoding of digest texts is total only for well-formed digests (C01).",
       "Coq proof (refinement dirhash = vhash o prune, permutation invariance via a verified sort, mutual induction for renaming) + lockstep correspondence + independent recomputation",
       "DESIGN.md 3 C07")
 claim("C08",
@@ -63,7 +63,7 @@ claim("C03",
       "Coq proof (closed form of the verify fold, case analysis of the exit-code selection) + regenerated exit codes + lockstep mutation correspondence + independent oracle",
       "DESIGN.md 3 C03")
 claim("C09",
-      "Theorems, for every tree, history and option combination: verify -dh is total -- it always ends with an exit code, never an internal error; the exit code is 12 (obligation on the regenerated constant) exactly when some format failed and every judged format (those of the root history's root hashes, default c4) is among the failed ones, else 0; a recorded directory entry -- of a sub-folder in the history it is routed to, or a root hash of any generation of the root history, so entries directly in the root folder count -- fails exactly when the content or structure hash computed now over the non-ignored entries differs or the folder is gone. Tied to the code by lockstep runs (flat folders, nested histories with differing formats, -n generations, one mutation at any depth incl. the root folder) and by an oracle that recomputes every recorded directory hash independently.",
+      "Theorems, for every tree, history and option combination: verify -dh is total -- it always ends with an exit code, never an internal error; the exit code is 12 (obligation on the regenerated constant) exactly when some format failed and every judged format (those of the root history's root hashes, default c4) is among the failed ones, else 0; a recorded directory entry -- of a sub-folder in the history it is routed to, or a root hash of any generation of the root history, so entries directly in the root folder count -- fails exactly when the content or structure hash computed now over the non-ignored entries differs or the folder is gone; an entry whose content hash was recorded before a one-file content change at any depth below the folder fails afterwards, or an explicit collision of the primitive is exhibited. Tied to the code by lockstep runs (flat folders, nested histories with differing formats, -n generations, one mutation at any depth incl. the root folder) and by an oracle that recomputes every recorded directory hash independently.",
       "PARTIAL: 'unchanged tree gives 0 / any change gives 12' additionally needs that the recorded hashes are those of the sealed tree (create and verify -dh share `dirhash`; checked by correspondence) and collision freedom of the primitive (not provable).",
       "Coq proof (totality, closed form of the exit decision, characterisation of a failing entry) + lockstep mutation correspondence + independent directory-hash oracle",
       "DESIGN.md 3 C09")
